@@ -456,8 +456,25 @@ class ndarray:
         self._check_alive()
         symfs.array_tofile(self, fd)
 
-    def tobytes(self):
-        raise ModelGap('tobytes')
+    def tobytes(self, order='C'):
+        """bytes of the array; order 'C' = row-major whatever the memory layout; 'A'/'F'/'K' follow a
+        column-major layout when the array has one (and no row-major one) - such bytes are NOT the row-major
+        bytes unless the array has at most one row or one element per row."""
+        self._check_alive()
+        rows = self._rows()
+        if order not in ('C', 'A', 'F', 'K', None):
+            raise ValueError('order not understood')
+        colmajor = False
+        if self.ndim >= 2:
+            if order == 'F':
+                colmajor = True
+            elif order in ('A', 'K') and self.flags.f_contiguous and not self.flags.c_contiguous:
+                colmajor = True
+        if colmajor:
+            n = self._shape[0]
+            if not (n <= 1 or _prod(self._shape[1:]) <= 1):
+                rows = rows.map_src(lambda sr: ('colmajor-bytes', sr))
+        return ModelBytes(ndarray(self.dtype, self._shape, rows))
 
     def __iter__(self):
         n = len(self)
@@ -505,6 +522,16 @@ class ndarray:
 
     def __str__(self):
         return self.__repr__()
+
+
+class ModelBytes:
+    """result of ndarray.tobytes(): the bytes of `arr` in row order"""
+
+    def __init__(self, arr):
+        self.arr = arr
+
+    def __len__(self):
+        return self.arr.nbytes
 
 
 class _SliceView(ndarray):
@@ -610,6 +637,9 @@ def _getitem(a, index):
     if isinstance(index, tuple):
         if len(index) == 1:
             return _getitem(a, index[0])
+        index = _drop_ellipsis(a, index)
+        if not isinstance(index, tuple):
+            return _getitem(a, index)
         if isinstance(index[0], (int, int64, NarrowInt)) and not isinstance(index[0], bool):
             # a[i, j, ..] == a[i][j, ..] when the leading index is an integer
             return _getitem(_getitem(a, index[0]), tuple(index[1:]))
@@ -677,6 +707,25 @@ def _getitem(a, index):
     raise ModelGap(f'index of type {type(index).__name__}')
 
 
+def _drop_ellipsis(a, index):
+    """an Ellipsis inside a tuple index stands for the axes the other entries do not name - possibly none"""
+    ells = [i for i, x in enumerate(index) if x is Ellipsis]
+    if not ells:
+        return index
+    if len(ells) > 1:
+        raise IndexError("an index can only have a single ellipsis ('...')")
+    rest = tuple(x for x in index if x is not Ellipsis)
+    named = [x for x in rest if x is not None]
+    if len(named) > a.ndim:
+        raise IndexError('too many indices for array')
+    if not rest:
+        return Ellipsis
+    if ells[0] == len(index) - 1 or len(named) == a.ndim:
+        # trailing Ellipsis, or one that stands for zero axes: the remaining entries index the leading axes
+        return rest if len(rest) > 1 else rest[0]
+    raise ModelGap('leading ellipsis standing for one or more axes')
+
+
 def _make_view(base, result):
     """Indexing a memmap (or a view of one) gives a view that dangles after unmap."""
     owner = getattr(base, '_mapowner', None)
@@ -712,6 +761,10 @@ def _value_rows(value, dt, nrows, subshape):
 
 
 def _setitem(a, index, value):
+    if isinstance(index, tuple):
+        index = _drop_ellipsis(a, index)
+        if isinstance(index, tuple) and len(index) == 1:
+            index = index[0]
     if index is Ellipsis and a.ndim >= 1:
         index = slice(None)
     rows = a._rows()
